@@ -3,7 +3,7 @@ import io
 from vfam import *  # noqa
 
 THEOREMS = ["C02_sequence_offsets", "C02_sequence_fixed", "C02_container_offsets", "C02_uint", "C02_bool", "C02_length_within_bounds", "C02_constructed", "C02_any_representation"]
-PARTIAL = ["C02_constructed / C02_any_representation are full statements for every type: the constructor's tree and ANY representation of a value serialise to the spec bytes; backings produced by mutations that C04 does not yet show to preserve representation (pop, packed / bit operations, union change) and the Python glue (encode_bytes, serialize(stream), bytes()) are covered by the correspondence, also after mutation histories (C04 harness)"]
+PARTIAL = ["C02_constructed / C02_any_representation are full statements for every type: the constructor's tree and ANY representation of a value serialise to the spec bytes, and every mutating operation preserves representation (C04, C05_cmd_on_chain); the Python glue (encode_bytes, serialize(stream), bytes()) is tied by the correspondence, also after mutation histories (C04 harness)"]
 COQ_IMPORTS = ["RM.Types", "RMR.RunV"]
 COQ_FN = "RunV.run_c02"
 COQ_CASE_TY = "(ty * val)"
